@@ -81,13 +81,19 @@ def impl_events_term(mp, hist, out, opterms):
     """list event built from the implementation's observations (needs a snapshot after every step)."""
     evs = []
     prev = []
+    prev_ok = True           # the state before the first step is the empty store
     for (op, st, ot) in zip(hist["ops"], out["steps"], opterms):
         if not st.get("has_snap"):
-            return None
-        m = re.match(r"^\((.*), (\(mkOracle .*\))\)$", ot, flags=re.S)
+            prev_ok = False
+            continue
         after = [coq_msg(mp, r) for r in st["snap"]]
-        evs.append("(mkEvent %s %s %s [%s] [%s])" % (m.group(1), m.group(2), coq_res(mp, op, st["res"]), "; ".join(prev), "; ".join(after)))
+        if prev_ok:
+            m = re.match(r"^\((.*), (\(mkOracle .*\))\)$", ot, flags=re.S)
+            evs.append("(mkEvent %s %s %s [%s] [%s])" % (m.group(1), m.group(2), coq_res(mp, op, st["res"]), "; ".join(prev), "; ".join(after)))
         prev = after
+        prev_ok = True
+    if not evs:
+        return None
     return "[" + ";\n ".join(evs) + "]"
 
 
